@@ -291,3 +291,39 @@ func verifC18_deadline() {
 	c.CloseNow()
 	vObserve("deadline", side, when)
 }
+
+// C18.stream over a connection with permessage-deflate: compressed messages (DEFLATE stored blocks with symbolic data,
+// so the real inflater runs) read through the adapter with buffers smaller than a message: the inflater holds bytes of a
+// message back after the last byte of its last frame has been taken off the wire; nothing of the stream may get lost.
+func verifC18_stream_deflate() {
+	client := vParam("client", 1) == 1
+	vInstallRand()
+	mode := 1 + vChoose("mode", 2)
+	var frames []vFrame
+	var all []byte
+	nMsgs := 1 + vChoose("msgs", 2)
+	for i := 0; i < nMsgs; i++ {
+		n := 2 + vChoose("len", 3)
+		d := vBytes("d", n)
+		all = append(all, d...)
+		frames = append(frames, vDataFrames(vStored(d, []int{n}, false), nil, 2, true, client)...)
+	}
+	tr := vNewTransport(vEncodeFrames(frames))
+	tr.endMode = vEndEOF // (a reader that lost part of the stream runs into the end of the transport instead of waiting)
+	rcv := vNewConn(tr, client, vCopts(mode), 64, 32)
+	ncr := NetConn(vBG, rcv, MessageBinary)
+	p := make([]byte, 1+vChoose("buf", 3))
+	var got []byte
+	for len(got) < len(all) {
+		n, err := ncr.Read(p)
+		vAssert(n > 0 || err != nil, "C18.stream.no-zero-read")
+		got = append(got, p[:n]...)
+		if err != nil {
+			break
+		}
+	}
+	vReach("C18.stream-deflate.read")
+	vAssert(vEqBytes(got, all), "C18.stream.concatenation")
+	rcv.CloseNow()
+	vObserve("stream-deflate", got)
+}
